@@ -151,7 +151,11 @@ def judge(cfg, events, results, props=None):
             if code in ("G2", "G3") and virt.abs and all(virt.pos[a] is not None for a in "XY"):
                 pts = arc_samples(virt, code, w)
             virt_depth_before = virt.depth()
+            n_fw_file = len(virt.fwlog)
             virt_info = virt.execute(ev[1])
+            for (c_fw, t_fw) in virt.fwlog[n_fw_file:]:
+                if c_fw == "G10":
+                    cur["g10_params"] = _fw_params(t_fw)
             maxreq = max(maxreq, virt.depth())
             is_move = code in ("G0", "G1") and any(w.get(a) is not None for a in "XYZ")
             if code in ("G2", "G3") and pts:
@@ -210,7 +214,21 @@ def judge(cfg, events, results, props=None):
             ocode, owords = read_words(o)
             depth_before = phys.depth()
             xy_before = (phys.pos["X"], phys.pos["Y"])
+            n_fw_phys = len(phys.fwlog)
             info = phys.execute(o)
+            for (c_fw, t_fw) in phys.fwlog[n_fw_phys:]:
+                # "carry the original parameters": a forwarded G10 repeats the parameters of the file's
+                # G10 it stands for; a G11 that is not the file's own command verbatim repeats those of
+                # the G10 that physically retracted
+                if c_fw == "G10":
+                    if cur.get("g10_params") is not None and _fw_params(t_fw) != cur["g10_params"]:
+                        viol("C05", i, "forwarded %r does not carry the parameters %r of the file's G10"
+                             % (t_fw, cur["g10_params"]))
+                    cur["phys_g10_params"] = _fw_params(t_fw)
+                elif not (ev[0] == "g" and t_fw == ev[1]) and cur.get("phys_g10_params") is not None \
+                        and _fw_params(t_fw) != cur["phys_g10_params"]:
+                    viol("C05", i, "generated %r does not carry the parameters %r of the retraction it recovers"
+                         % (t_fw, cur["phys_g10_params"]))
             if ("X" in info["moved"] or "Y" in info["moved"]) and enabled:
                 if None not in (phys.pos["X"], phys.pos["Y"]) and \
                         any(in_region(s, phys.pos["X"], phys.pos["Y"], 1e-3) for s in regions):
@@ -298,6 +316,12 @@ def judge(cfg, events, results, props=None):
             viol("C05", len(events) - 1, "forwarded G10/G11 sequence loses parity: %r" % (seq,))
             break
     return out
+
+
+def _fw_params(text):
+    """the parameter words of a G10/G11 command text, blanks normalised"""
+    _code, words = read_words(text)
+    return " ".join("%s%s" % (w[0].upper(), "" if w[1] is None else repr(w[1])) for w in words)
 
 
 def _classify(regions, x, y):
